@@ -315,6 +315,9 @@ func (e *Env) Sim(opts SimOpts, main func()) *simrt.Result {
 	if res.Idles > 0 {
 		e.CountN("sim.idle-advances", res.Idles)
 	}
+	if res.ChanBlocks > 0 {
+		e.CountN("probe.task-really-blocked-in-a-channel-operation", res.ChanBlocks)
+	}
 	return res
 }
 
